@@ -9,13 +9,15 @@ def tasks(run):
         for e in ('add_metric', 'add_lmi', 'new_iterate', 'add_constraint'):
             out.append(('resolve', (name, seed, e)))
     out += [('resolve_none', (run.seed + i,)) for i in range(2)]
+    out += [('dual_tables', (name, seed, True)) for (name, seed) in models.programs(run.seed + 1, 12)]      # tables / multipliers of the LATEST solve
     return out
 
 
 def run(run):
     hc.solve_scenarios(run, 'C13', tasks(run), 'rt-solve-resolve',
                        'seeded DSL programs from 11 templates; solve, solve again, edit (add a metric / a constraint / an LMI / a new oracle call), '
-                       'solve, compare with a freshly built equivalent model; user-held objects re-evaluated; solver CLARABEL, tolerance 2e-5(1+|tau|)')
+                       'solve, compare with a freshly built equivalent model; user-held objects re-evaluated; dual tables after a re-solve; solver CLARABEL, tolerance 2e-5(1+|tau|)',
+                       also=('C17',))
 
 
 def replay(rec, path):
